@@ -892,6 +892,51 @@ theorem usable_response_never_publishes_zone_failure (ctx : Ctx) (zoneEmpty nsl 
     · exact absurd rfl (hall _ h)
     · exact (hall _ h).elim
 
+/-! ## the per-address circuit breaker -/
+
+/-- **The breaker refuses only what failed five times in a row, and only for
+30 s.** After ANY history of `canQuery` / `recordFailure` / `recordSuccess` /
+`cleanupOnce` steps with arbitrary time stamps, an address is refused only if
+its record is open, has counted at least five failures since it was last
+closed or re-admitted, and its last failure lies at most 30 s back; so
+`Resolver.lookup` can treat an address as failed without asking it only on
+that evidence, never longer. -/
+theorem breaker_refuses_only_recent_repeated_failure (ops : List BOp) (nowMs : Int) (a : String)
+    (h : ((ops.foldl applyB []).canQuery nowMs a).2 = false) :
+    ∃ sf, (ops.foldl applyB []).get a = some sf ∧ sf.disabled = true ∧ 5 ≤ sf.count ∧
+      nowMs - sf.last * 1000 ≤ 30000 := by
+  have hinv := breaker_reachable_inv ops
+  generalize ops.foldl applyB [] = b at *
+  unfold Breaker.canQuery at h
+  cases hg : b.get a with
+  | none => rw [hg] at h; cases h
+  | some sf =>
+    rw [hg] at h
+    simp only at h
+    by_cases hd : sf.disabled = true
+    · by_cases ht : nowMs - sf.last * 1000 > 30000
+      · simp [hd, ht] at h
+      · exact ⟨sf, rfl, hd, hinv _ (bget_mem b a sf hg) hd, by omega⟩
+    · simp [hd] at h
+
+/-- **A success closes the breaker; 30 s of silence re-admit the address.** -/
+theorem breaker_readmits (b : Breaker) (nowMs : Int) (a : String) :
+    ((b.recordSuccess a).canQuery nowMs a).2 = true ∧
+    (∀ sf, b.get a = some sf → nowMs - sf.last * 1000 > 30000 → (b.canQuery nowMs a).2 = true) ∧
+    (b.get a = none → (b.canQuery nowMs a).2 = true) := by
+  refine ⟨?_, ?_, ?_⟩
+  · unfold Breaker.recordSuccess
+    cases hg : b.get a with
+    | none => simp [Breaker.canQuery, hg]
+    | some sf => simp [Breaker.canQuery, bget_put_self]
+  · intro sf hg ht
+    unfold Breaker.canQuery
+    rw [hg]
+    simp only
+    by_cases hd : sf.disabled = true <;> simp [hd, ht]
+  · intro hg
+    simp [Breaker.canQuery, hg]
+
 /-! ## the kill switch -/
 
 /-- **rfc9520 off is inert.** With the switch off no Store entry point reads
@@ -1194,6 +1239,13 @@ example : (lookup H0 (recordQuestion H0 cfg0 [] 7 (qA wwwMixed) 1 0).1 7 (qA www
 -- usable_response_never_publishes_zone_failure: three failing servers and one bare NXDOMAIN
 example : resolveRecordsZone ⟨false, false, false, .none⟩ false false
     (lookupFold false [.rcode 2, .rcode 5, .rcode nxdomain, .err .other] [] 0 []) = false := by decide
+
+-- breaker_refuses_only_recent_repeated_failure: five failures in a row open it; 29.5 s later still refused, 30.5 s later asked again
+def cbHist5 : List BOp := [.fail 1000500 "a", .fail 1000500 "a", .ok "b", .fail 1001500 "a", .fail 1001500 "a", .fail 1002500 "a"]
+example : ((cbHist5.foldl applyB []).canQuery 1031500 "a").2 = false := by decide
+example : ((cbHist5.foldl applyB []).canQuery 1032500 "a").2 = true := by decide
+example : (((cbHist5 ++ [.ok "a"]).foldl applyB []).canQuery 1002600 "a").2 = true := by decide
+example : (((cbHist5.take 5).foldl applyB []).canQuery 1001600 "a").2 = true := by decide
 
 end Examples
 
